@@ -877,7 +877,24 @@ impl<'a> G<'a> {
                     // the type itself as a pattern (a union-typed field would be an alternation
                     // inside a tuple pattern: gate N11)
                     self.feat("pat:type-ref");
-                    return (ty.src(), false);
+                    // written field by field so that tuple-typed fields carry the K7 marker (a
+                    // type like `[P]` is syntactically a tuple pattern with a nested tuple pattern)
+                    let parts: Vec<String> = fs
+                        .iter()
+                        .map(|(l, ft)| {
+                            let fsrc = ft.src_n(true);
+                            let fsrc = if fsrc.starts_with(|c: char| c.is_ascii_uppercase() || c == '[') {
+                                format!("\u{27E6}{fsrc}\u{27E7}")
+                            } else {
+                                fsrc
+                            };
+                            match l {
+                                Some(l) => format!("{l}: {fsrc}"),
+                                None => fsrc,
+                            }
+                        })
+                        .collect();
+                    return (format!("{}[{}]", name.clone().unwrap_or_default(), parts.join(", ")), false);
                 }
                 let labelled = fs.iter().all(|(l, _)| l.is_some());
                 if k <= 3 && labelled {
